@@ -148,6 +148,13 @@ class SubField(csr.Field):
     """a user's own subclass of csr.Field (a `Bit`, a `Reserved`, …) is a field like any other"""
 
 
+class RenField(csr.Field):
+    """a field whose action the user wraps (DomainRenamer / EnableInserter / ResetInserter) to put it into another domain"""
+    def create(self):
+        from amaranth import DomainRenamer
+        return DomainRenamer("sync")(super().create())
+
+
 class SubDict(dict):
     pass
 
@@ -165,8 +172,9 @@ def respell(obj, us, memo=None):
         return memo[id(obj)]
     if isinstance(obj, csr.Field):
         new = obj
-        if us.random() < .4 and hasattr(obj, "_action_cls"):
-            new = SubField(obj._action_cls, *obj._args, **obj._kwargs)
+        x_ = us.random()
+        if x_ < .4 and hasattr(obj, "_action_cls"):
+            new = (RenField if x_ < .12 else SubField)(obj._action_cls, *obj._args, **obj._kwargs)
     elif isinstance(obj, dict):
         items = [(k, respell(v, us, memo)) for k, v in obj.items()]
         x = us.random()
@@ -202,8 +210,19 @@ def run_impl(case):
                     base = type("AnnBase", (csr.Register,), {"__annotations__": dict(other)}, access="rw")
                     base()
                     stats["annot_subclass"] = 1
-            cls = type("AnnReg", (base,), {"__annotations__": dict(fields)}, access=eacc)
-            dut = cls()
+            if us.random() < .4 and base is csr.Register:
+                # the access mode is given per instance, not per class: an earlier, more permissive instance of the same
+                # class decides nothing for this one
+                cls = type("AnnReg", (base,), {"__annotations__": dict(fields)})
+                try:
+                    cls(access="rw")
+                except (ValueError, TypeError):
+                    pass
+                stats["access_per_instance"] = 1
+                dut = cls(access=eacc)
+            else:
+                cls = type("AnnReg", (base,), {"__annotations__": dict(fields)}, access=eacc)
+                dut = cls()
         else:
             dut = csr.Register(fields, access=eacc)
     except (ValueError, TypeError) as e:
